@@ -164,10 +164,11 @@ def h_unwrap(I, st, fr, e, c, a):
     if isinstance(v, VEnum):
         if v.variant in ("Some", "Ok"):
             return [(st, v.payload[0], None)]
-        I.panic_path(st, fr, e, "UNW", c["name"] + " on " + v.variant)
+        # `expect(msg)` is `unwrap()` with a message: one name for the obligation, whichever form is written
+        I.panic_path(st, fr, e, "UNW", "unwrap on " + v.variant)
         return []
     if isinstance(v, VTop):
-        I.oblige("UNW", fr, e, c["name"], "value unknown (" + v.why + ")", False, "", detail=I.describe(st))
+        I.oblige("UNW", fr, e, "unwrap", "value unknown (" + v.why + ")", False, "", detail=I.describe(st))
         return [(st, VTop("unwrap " + v.why), None)]
     raise NotImplementedError("unwrap of " + repr(v))
 
